@@ -55,6 +55,8 @@ type pendBatch struct {
 	k       string
 	p, d, r []int
 	cmd     chan answerCmd
+	at      time.Time // when the leader received it
+	sid     int64     // write requests: the write stream (one server-side handler) it arrived on; reads 0
 }
 
 const (
@@ -112,6 +114,10 @@ type world struct {
 	anomaly []string
 	rng     *rand.Rand
 	stopTk  chan struct{}
+
+	reqTimeout time.Duration  // the client's request timeout (short in a cfg.Tmo world)
+	nextSid    int64          // write streams opened so far
+	closedSid  map[int64]bool // write streams whose server-side handler has returned (or is about to)
 }
 
 func isDead(cfg Cfg, s int) bool {
@@ -126,13 +132,19 @@ func isDead(cfg Cfg, s int) bool {
 var worldSeq int64
 var worldSeqMu sync.Mutex
 
-func newWorld(base string, cfg Cfg, linger time.Duration, seed int64) (*world, error) {
+// newWorld: tmo is the request timeout of a cfg.Tmo world (real time, like linger); otherwise the timeout
+// is so long (60 s) that it never fires.
+func newWorld(base string, cfg Cfg, linger time.Duration, seed int64, tmo time.Duration) (*world, error) {
 	worldSeqMu.Lock()
 	worldSeq++
 	id := worldSeq
 	worldSeqMu.Unlock()
 	w := &world{cfg: cfg, linger: linger, pend: map[pkey][]*pendBatch{}, streams: map[skey]*srvStream{}, sent: map[skey]int{},
-		tracing: true, rng: rand.New(rand.NewSource(seed)), stopTk: make(chan struct{})}
+		tracing: true, rng: rand.New(rand.NewSource(seed)), stopTk: make(chan struct{}), closedSid: map[int64]bool{},
+		reqTimeout: 60 * time.Second}
+	if cfg.Tmo && tmo > 0 {
+		w.reqTimeout = tmo
+	}
 	if w.cfg.Dead == nil {
 		w.cfg.Dead = []int{}
 	}
@@ -176,11 +188,20 @@ func newWorld(base string, cfg Cfg, linger time.Duration, seed int64) (*world, e
 		}
 	}()
 	w.log(TLine{A: "Reset", Cfg: w.cfg})
-	cl, err := oxia.NewAsyncClient(service,
-		oxia.WithBatchLinger(linger),
-		oxia.WithMaxRequestsPerBatch(cfg.MaxReq),
-		oxia.VerifWithMaxBatchSize(cfg.MaxBytes),
-		oxia.WithRequestTimeout(60*time.Second))
+	var cl oxia.AsyncClient
+	var err error
+	for attempt := 0; ; attempt++ {
+		cl, err = oxia.NewAsyncClient(service,
+			oxia.WithBatchLinger(linger),
+			oxia.WithMaxRequestsPerBatch(cfg.MaxReq),
+			oxia.VerifWithMaxBatchSize(cfg.MaxBytes),
+			oxia.WithRequestTimeout(w.reqTimeout))
+		// the request timeout also bounds the retrieval of the initial shard assignments: with a short one the
+		// creation itself can time out on a busy machine - that is not what is being examined, try again
+		if err == nil || !cfg.Tmo || attempt >= 40 {
+			break
+		}
+	}
 	if err != nil {
 		w.close()
 		return nil, err
@@ -248,6 +269,8 @@ func classify(err error) string {
 	switch {
 	case err == nil:
 		return "ok"
+	case errors.Is(err, context.DeadlineExceeded) || status.Code(err) == codes.DeadlineExceeded:
+		return "timeout" // the client-side wait ended (WithRequestTimeout)
 	case errors.Is(err, oxia.ErrKeyNotFound):
 		return "notfound"
 	case errors.Is(err, oxia.ErrUnexpectedVersionId):
@@ -261,6 +284,25 @@ func (w *world) recordVal(c int, r AnsRec) {
 		r.Key = []int{}
 	}
 	w.mu.Lock()
+	if r.St == "timeout" {
+		// A timeout is the end of the wait for a request that was sent; the leader's report of that request
+		// (Batch) is logged by another goroutine and must not be overtaken by this line (every line is logged
+		// after its cause): hold it back until the request of the call has been reported.
+		cs := w.calls[c-1]
+		deadline := time.Now().Add(300 * time.Millisecond)
+		for time.Now().Before(deadline) {
+			all := true
+			for _, s := range cs.t.targets(w.cfg.N) {
+				if w.sent[skey{c, s}] == 0 {
+					all = false
+				}
+			}
+			if all {
+				break
+			}
+			w.cond.Wait()
+		}
+	}
 	w.calls[c-1].vals = append(w.calls[c-1].vals, r)
 	w.logLocked(TLine{A: "Done", C: c, Res: r})
 	w.mu.Unlock()
@@ -493,9 +535,15 @@ func (*fakeLeader) CloseSession(context.Context, *proto.CloseSessionRequest) (*p
 }
 
 // register records the arrival of a request and returns the handle the scheduler answers through.
-func (w *world) register(s int, k string, p, d, r []int) *pendBatch {
-	pb := &pendBatch{s: s, k: k, p: p, d: d, r: r, cmd: make(chan answerCmd, 1)}
+// A write request that arrives on a write stream whose handler is gone is not recorded (nil): nobody will
+// ever answer it, the client fails it when it notices the end of the stream.
+func (w *world) register(s int, k string, p, d, r []int, sid int64) *pendBatch {
+	pb := &pendBatch{s: s, k: k, p: p, d: d, r: r, cmd: make(chan answerCmd, 1), sid: sid, at: time.Now()}
 	w.mu.Lock()
+	if sid != 0 && w.closedSid[sid] {
+		w.mu.Unlock()
+		return nil
+	}
 	w.pend[pkey{s, k}] = append(w.pend[pkey{s, k}], pb)
 	for _, l := range [][]int{p, d, r} {
 		for _, c := range l {
@@ -534,22 +582,52 @@ func (f *fakeLeader) WriteStream(stream proto.OxiaClient_WriteStreamServer) erro
 		return status.Error(codes.InvalidArgument, "no shard id")
 	}
 	s, _ := strconv.Atoi(sv[0])
+	w.mu.Lock()
+	w.nextSid++
+	sid := w.nextSid
+	w.mu.Unlock()
+	// whatever this stream still holds unanswered when the handler returns is gone with it
+	defer w.closeWriteStream(s, sid)
+	// The requests are received (and reported) as they arrive, also while earlier ones sit unanswered: a
+	// client whose wait for a request timed out sends the next one on the same stream.  They are answered
+	// strictly in order, like a real leader does.
+	in := make(chan *pendBatch, 256)
+	go func() {
+		defer close(in)
+		for {
+			req, err := stream.Recv()
+			if err != nil {
+				return
+			}
+			var p, d, r []int
+			for _, x := range req.Puts {
+				p = append(p, callOfKey(x.Key))
+			}
+			for _, x := range req.Deletes {
+				d = append(d, callOfKey(x.Key))
+			}
+			for _, x := range req.DeleteRanges {
+				r = append(r, callOfKey(x.StartInclusive))
+			}
+			pb := w.register(s, "w", p, d, r, sid)
+			if pb == nil {
+				return
+			}
+			in <- pb
+		}
+	}()
 	for {
-		req, err := stream.Recv()
-		if err != nil {
+		var pb *pendBatch
+		var open bool
+		select {
+		case pb, open = <-in:
+			if !open {
+				return nil
+			}
+		case <-stream.Context().Done():
 			return nil
 		}
-		var p, d, r []int
-		for _, x := range req.Puts {
-			p = append(p, callOfKey(x.Key))
-		}
-		for _, x := range req.Deletes {
-			d = append(d, callOfKey(x.Key))
-		}
-		for _, x := range req.DeleteRanges {
-			r = append(r, callOfKey(x.StartInclusive))
-		}
-		pb := w.register(s, "w", p, d, r)
+		p, d, r := pb.p, pb.d, pb.r
 		var cmd answerCmd
 		select {
 		case cmd = <-pb.cmd:
@@ -585,6 +663,26 @@ func (f *fakeLeader) WriteStream(stream proto.OxiaClient_WriteStreamServer) erro
 	}
 }
 
+// closeWriteStream forgets the unanswered requests of a write stream that has ended.
+func (w *world) closeWriteStream(s int, sid int64) {
+	w.mu.Lock()
+	w.closedSid[sid] = true
+	w.dropStreamLocked(s, sid)
+	w.cond.Broadcast()
+	w.mu.Unlock()
+}
+
+func (w *world) dropStreamLocked(s int, sid int64) {
+	l := w.pend[pkey{s, "w"}]
+	keep := l[:0:0]
+	for _, pb := range l {
+		if pb.sid != sid {
+			keep = append(keep, pb)
+		}
+	}
+	w.pend[pkey{s, "w"}] = keep
+}
+
 func (f *fakeLeader) Read(req *proto.ReadRequest, stream proto.OxiaClient_ReadServer) error {
 	w := f.w
 	s := int(req.GetShard())
@@ -592,11 +690,22 @@ func (f *fakeLeader) Read(req *proto.ReadRequest, stream proto.OxiaClient_ReadSe
 	for _, g := range req.Gets {
 		p = append(p, callOfKey(g.Key))
 	}
-	pb := w.register(s, "r", p, nil, nil)
+	pb := w.register(s, "r", p, nil, nil, 0)
 	var cmd answerCmd
 	select {
 	case cmd = <-pb.cmd:
 	case <-stream.Context().Done():
+		// the client gave the RPC up (request timeout, close): nobody can answer it any more
+		w.mu.Lock()
+		l := w.pend[pkey{s, "r"}]
+		for i := range l {
+			if l[i] == pb {
+				w.pend[pkey{s, "r"}] = append(l[:i:i], l[i+1:]...)
+				break
+			}
+		}
+		w.cond.Broadcast()
+		w.mu.Unlock()
 		return nil
 	}
 	ok := cmd.mode == ansOK
@@ -732,7 +841,14 @@ func (w *world) answer(s int, k string, mode, n int) bool {
 	if mode != ansBreak || k == "w" {
 		n = 0
 	}
-	w.logLocked(TLine{A: a, S: s, K: k, N: n})
+	if k == "w" && mode != ansOK {
+		// the handler ends the write stream: everything it holds (abandoned requests and the one in flight)
+		// goes with it, and nothing more is accepted on it
+		w.closedSid[pb.sid] = true
+		w.dropStreamLocked(s, pb.sid)
+	}
+	// the line names the request (the head of the leader's queue of that stream), not just the shard
+	w.logLocked(TLine{A: a, S: s, K: k, N: n, P: pb.p, D: pb.d, R: pb.r})
 	w.mu.Unlock()
 	pb.cmd <- answerCmd{mode, n}
 	return true
